@@ -65,6 +65,21 @@ class RawRep(L.Rep):
         self.bpf = bytes_per_frame
         self.payload_sizes = set()
 
+    def own_bytes(self, frame, n):
+        """hex of the bytes of frames [frame, frame + n) of the prepared file, for 16-bit PCM layouts (the audio is located by searching for the samples
+        prep_script wrote, in either byte order); None otherwise"""
+        import struct
+        if not self.filehex or (self.word & 0xFFFF) != 0x02:
+            return None
+        b = bytes.fromhex(self.filehex)
+        v = L.s16_items(self.frames * self.ch, 3)
+        for fmt in ("<", ">"):
+            pat = struct.pack(fmt + "%dh" % len(v), *v)
+            k = b.find(pat)
+            if k >= 0:
+                return b[k + frame * self.bpf:k + (frame + n) * self.bpf].hex()
+        return None
+
     def body(self, wl, fault_after_open=False, probes=True):
         if wl != "rw":
             return super().body(wl, fault_after_open, probes)
@@ -84,6 +99,7 @@ class RawRep(L.Rep):
             return "wraw h0 %d %s" % (n, "".join("%02x" % ((k * 37 + salt) & 0xFF) for k in range(n)))
 
         n1 = max(2, (F // 4) & ~1)
+        same = self.own_bytes(3, 5)
         P(); L_.append("rraw h0 %d" % (n1 * bpf))
         P(); L_.append(raw(13, 1))                       # the write pointer is at the end: a raw write right after a raw read (re-seek)
         P(); L_.append("r h0 s16 i %d" % (n1 * ch))
@@ -95,6 +111,14 @@ class RawRep(L.Rep):
         self.payload_sizes.add(3 * bpf)
         P(); L_.append("seek h0 1 16")
         P(); L_.append(raw(9, 3))
+        if same:
+            # LAST (nothing that follows depends on where the write pointer is): the write pointer INSIDE the old audio, then the file's OWN bytes written over themselves (an overwrite that changes nothing, so the `prefix` clause
+            # stays exact), then a raw read: its re-seek starts from a file position in the middle of the data -- a read that goes ahead after a failed
+            # re-seek delivers the frames behind the write pointer instead of those at the read pointer (`data` clause against the fault-free run)
+            P(); L_.append("seek h0 3 32")
+            P(); L_.append("wraw h0 %d %s" % (5 * bpf, same))
+            self.payload_sizes.add(5 * bpf)
+            P(); L_.append("rraw h0 %d" % (2 * bpf))      # (ONE overwrite only: after a short transfer the write pointer is no longer where a second one would assume it)
         P()
         return pre, op, L_
 
